@@ -556,3 +556,70 @@ proofs! { c09_ops_u32_l5 => 9, 15, [h_new::<u32, 5>(), h_push::<u32, 5, 6>(), h_
 //@ bounds: every i64 weight list of length 3 (new), arbitrary valid pre-state of length 3 (push, update); negative weights rejected
 //@ assumes: pre-state invariant; spare capacity
 proofs! { c09_ops_i64_l3 => 8, 15, [h_new::<i64, 3>(), h_push::<i64, 3, 4>(), h_update::<i64, 3>()]; }
+
+// ------------------------------------------------------------------------------------------
+// float weights: invalid weights (NaN, negative, -inf) are rejected by all three entry points and leave the
+// structure unchanged (C09 / C04).  No arithmetic is needed for these paths.
+// ------------------------------------------------------------------------------------------
+
+//@ id: c09_float_invalid_weight
+//@ prop: C09
+//@ tier: quick
+//@ cap: 600
+//@ funcs: WeightedTreeIndex::<f32>::new; push; update (rejection of NaN / negative weights); len; get
+//@ bounds: tree of two arbitrary non-negative f32 weights <= 1e30 (built by new); invalid weight w: NaN or < 0; every in-range index
+//@ assumes: none
+#[kani::proof]
+#[kani::unwind(6)]
+fn c09_float_invalid_weight() {
+    let a: f32 = kani::any();
+    let b: f32 = kani::any();
+    kani::assume(a >= 0.0 && a <= 1e30 && b >= 0.0 && b <= 1e30);
+    let w: f32 = kani::any();
+    kani::assume(w != w || w < 0.0);
+    let i: usize = kani::any();
+    kani::assume(i < 2);
+    let mut t = WeightedTreeIndex::<f32>::new(&[a, b]).unwrap();
+    let s0 = (t.subtotals[0].to_bits(), t.subtotals[1].to_bits());
+    vassert!(t.update(i, w) == Err(WErr::InvalidWeight), "tree<f32>::update: NaN / negative weight must give InvalidWeight");
+    vassert!(t.push(w) == Err(WErr::InvalidWeight), "tree<f32>::push: NaN / negative weight must give InvalidWeight");
+    vassert!(t.len() == 2 && (t.subtotals[0].to_bits(), t.subtotals[1].to_bits()) == s0, "tree<f32>: a rejected weight changed the structure");
+    vassert!(matches!(WeightedTreeIndex::<f32>::new(&[a, w]), Err(WErr::InvalidWeight)), "tree<f32>::new: NaN / negative weight must give InvalidWeight");
+    vassert!(matches!(WeightedTreeIndex::<f32>::new(&[w, b, a]), Err(WErr::InvalidWeight)), "tree<f32>::new: NaN / negative weight at an inner node must give InvalidWeight");
+    kani::cover!(w != w, "NaN");
+    kani::cover!(w < 0.0, "negative");
+    core::mem::forget(t);
+}
+
+// ------------------------------------------------------------------------------------------
+// C14: `tree.sample_iter(rng)` (whatever method that resolves to) and repeated `sample` agree on the same stream
+// ------------------------------------------------------------------------------------------
+
+//@ id: c14_tree_sample_iter
+//@ prop: C14
+//@ tier: quick
+//@ cap: 900
+//@ funcs: WeightedTreeIndex::<u8>::sample; sample_iter (rand's Distribution::sample_iter adaptor unless the type shadows it)
+//@ bounds: arbitrary valid tree of 3 u8 weights with total > 0; every word stream; first two draws (each accepted within 2 words)
+//@ assumes: state invariant (C09)
+#[kani::proof]
+#[kani::unwind(8)]
+fn c14_tree_sample_iter() {
+    let words: [u64; NW] = kani::any();
+    let ws: [u8; 3] = any_valid_list();
+    kani::assume(total(&ws) > 0);
+    let t1 = mk_tree(&ws, 3);
+    let t2 = mk_tree(&ws, 3);
+    let mut r1 = SymRng::from_words(words, 4);
+    let mut r2 = SymRng::from_words(words, 4);
+    let a0 = t1.sample(&mut r1);
+    let a1 = t1.sample(&mut r1);
+    let mut it = t2.sample_iter(&mut r2);
+    let b0 = it.next().unwrap();
+    let b1 = it.next().unwrap();
+    drop(it);
+    vassert!(a0 == b0 && a1 == b1, "WeightedTreeIndex: sample_iter and repeated sample disagree on the same stream");
+    vassert!(r1.pos == r2.pos, "WeightedTreeIndex: sample_iter and repeated sample consume different numbers of words");
+    kani::cover!(a0 != a1, "two different indices");
+    core::mem::forget(t1);
+}
